@@ -115,6 +115,33 @@ impl Gen {
     }
 }
 
+impl Gen {
+    /// stack-heavy programs: pushes, drops and pops under nested snapshots (sequence / optional / look-ahead /
+    /// restore_on_err), so that pops reach below the enclosing snapshot's baseline before an outer failure
+    fn stack_term(&mut self) -> Prog {
+        match self.rng.below(12) {
+            0..=3 => Prog::Lit(self.lit()), 4 | 5 => Prog::Drop, 6 => Prog::Pop, 7 => Prog::MPop,
+            8 => if self.rng.chance(1, 2) { Prog::Peek } else { Prog::MPeek }, 9 => Prog::Str(self.lit()), 10 => Prog::Fail, _ => Prog::Ok,
+        }
+    }
+    fn stack_any(&mut self, d: usize) -> Prog {
+        if d == 0 { return self.stack_term(); }
+        let b = |p| Box::new(p);
+        match self.rng.below(14) {
+            0 | 1 => self.stack_term(),
+            2..=4 => { let x = self.stack_any(d - 1); let y = self.stack_any(d - 1); Prog::Seq(b(Prog::And(b(x), b(y)))) }
+            5 => { let x = self.stack_any(d - 1); let y = self.stack_any(d - 1); let z = self.stack_any(d - 1); Prog::Seq(b(Prog::And(b(Prog::And(b(x), b(y))), b(z)))) }
+            6 | 7 => { let x = self.stack_any(d - 1); Prog::Opt(b(x)) }
+            8 => { let x = self.stack_any(d - 1); Prog::La(self.rng.chance(1, 2), b(x)) }
+            9 => { let x = self.stack_any(d - 1); Prog::Roe(b(x)) }
+            10 => { let x = self.stack_any(d - 1); let y = self.stack_any(d - 1); Prog::Or(b(x), b(y)) }
+            11 => { let x = self.stack_any(d - 1); let y = self.stack_any(d - 1); Prog::And(b(x), b(y)) }
+            12 => { let x = self.consuming(); Prog::Push(b(x)) }
+            _ => { let x = self.stack_any(d - 1); Prog::Rule(self.rng.below(4) as u16 + 1, b(x)) }
+        }
+    }
+}
+
 fn gen_input(rng: &mut Rng, maxlen: usize) -> String {
     let n = rng.range(0, maxlen);
     let mut s = String::new();
@@ -141,7 +168,7 @@ fn main() {
                 let nenv = rng.below(3) as usize;
                 let mut g = Gen { rng: rng.fork(), nenv, calls_left: 2 };
                 let d = g.rng.range(1, maxd);
-                let main = g.any(d);
+                let main = if i % 5 == 2 { let dd = g.rng.range(2, maxd.min(7)); g.stack_any(dd) } else { g.any(d) };
                 let mut env = vec![];
                 for _ in 0..nenv { g.calls_left = 2; let head = g.consuming(); let dd = g.rng.range(0, 3); let rest = g.any(dd); env.push(Prog::Seq(Box::new(Prog::And(Box::new(head), Box::new(rest))))); }
                 let detail = i % 4 == 1;
